@@ -86,7 +86,8 @@ Fixpoint geom_from (lens : list N) (pl pc pe : N) (l : list tok) : bool :=
 Definition geom_ok (i : cinfo) : bool := geom_from (ci_lens i) 0 0 0 (decode (ci_data i)).
 
 (* (d) lexemes: a code token covers the code with its parentheses, a commodity token a quoted
-   commodity with its quotes, an operator token exactly the operator *)
+   commodity with its quotes, an operator token exactly the operator, a tag token the tag name with
+   its colon (one colon, at the end, no blank or comma), a tag-value token a trimmed text without comma *)
 Definition last_byte (l : list N) : N := match rev l with c :: _ => c | [] => 0 end.
 Definition lexeme_ok (e : N * list N * list N) : bool :=
   let '(ty, cover, after) := e in
@@ -103,6 +104,15 @@ Definition lexeme_ok (e : N * list N * list N) : bool :=
   else if ty =? 11 then                                             (* operator *)
     list_eqb N.eqb cover [64] || list_eqb N.eqb cover [64; 64] || list_eqb N.eqb cover [61] ||
     list_eqb N.eqb cover [61; 61] || list_eqb N.eqb cover [124]
+  else if ty =? 5 then                                              (* tag: the name with its colon *)
+    (last_byte cover =? 58) && negb (existsb (fun c => (c =? 32) || (c =? 9) || (c =? 44)) cover) &&
+    (N.of_nat (count_occ N.eq_dec cover 58) =? 1)
+  else if ty =? 12 then                                             (* tag value: trimmed, inside one part *)
+    match cover with
+    | [] => false
+    | c0 :: _ => negb ((c0 =? 32) || (c0 =? 9)) && negb ((last_byte cover =? 32) || (last_byte cover =? 9)) &&
+                 negb (existsb (fun c => c =? 44) cover)
+    end
   else true.
 Definition lexemes_ok (i : cinfo) : bool := forallb lexeme_ok (ci_cover i).
 
